@@ -96,3 +96,168 @@ theorem methods_start_from_entry (entry : IntfEntry) (st : PState) :
     parseMethods env sc eng entry st = parseMethods.go env sc eng entry entry.obj.methods [] false st := rfl
 
 end Convergen.Props.C09
+
+namespace Convergen.Props.C09
+open Convergen
+
+/-! ## isolation of methods (T9.5 proper)
+
+What `parseMethod` yields for a method — its options, its diagnostics, whether it fails — depends on
+the parser state only through the method's *own* doc comment; and parsing a method changes the state
+only at that method's own doc comment.  Hence a method parsed after any other method (whose doc
+comment is a different AST node and a different comment group — true of any two interface methods
+in a Go file, and evaluated by the driver on the facts of every input) yields exactly what it yields
+when parsed first. -/
+
+variable (env : Env) (sc : Scope) (eng : Engine)
+
+/-- what a `parseMethod` call contributes: the parsed method (or failure) and the lines it adds to
+stderr / stdout -/
+def delta (st : PState) (r : Except (Halt × PState) (Option ParsedMethod × PState)) :
+    Except Halt (Option ParsedMethod × List String × List String) :=
+  match r with
+  | .ok (pm, st') => .ok (pm, st'.stderr.drop st.stderr.length, st'.stdout.drop st.stdout.length)
+  | .error (h, _) => .error h
+
+/-- **locality**: two states that agree on the method's own doc comment give the same contribution -/
+theorem parseMethod_local (m : MethodDecl) (opts : Options) (st1 st2 : PState)
+    (hdoc : st1.docs.docOn m.docChain = st2.docs.docOn m.docChain)
+    (hgrp : ∀ n g, st1.docs.docOn m.docChain = some (n, g) → st1.docs.group g = st2.docs.group g) :
+    delta st1 (parseMethod env sc eng m opts st1) = delta st2 (parseMethod env sc eng m opts st2) := by
+  unfold parseMethod
+  simp only
+  split
+  · simp [delta]
+  · split
+    · simp [delta]
+    · rw [← hdoc]
+      cases hd : st1.docs.docOn m.docChain with
+      | none =>
+        simp only
+        cases parseNotations env sc eng validOpsMethod [] opts with
+        | error msgs => simp [delta]
+        | panic s => simp [delta]
+        | ok res => simp [delta]
+      | some ng =>
+        obtain ⟨n, g⟩ := ng
+        have hg := hgrp n g hd
+        simp only [DocState.extract, ← hg]
+        cases parseNotations env sc eng validOpsMethod
+            (List.filter (fun c => isNotationLine c.text) (st1.docs.group g)) opts with
+        | error msgs => simp [delta]
+        | panic s => simp [delta]
+        | ok res => simp [delta]
+
+/-- **frame**: parsing a method touches no other comment group and no other node's doc pointer -/
+theorem parseMethod_frame (m : MethodDecl) (opts : Options) (st st' : PState) (r : Option ParsedMethod)
+    (h : parseMethod env sc eng m opts st = .ok (r, st')) :
+    (∀ g, (∀ n g', st.docs.docOn m.docChain = some (n, g') → g ≠ g') → st'.docs.group g = st.docs.group g) ∧
+    (∀ k, (∀ n g', st.docs.docOn m.docChain = some (n, g') → k ≠ n) → st'.docs.docOf.getD k none = st.docs.docOf.getD k none) := by
+  unfold parseMethod at h
+  simp only at h
+  split at h
+  · cases h; exact ⟨fun _ _ => rfl, fun _ _ => rfl⟩
+  · split at h
+    · cases h; exact ⟨fun _ _ => rfl, fun _ _ => rfl⟩
+    · cases hd : st.docs.docOn m.docChain with
+      | none =>
+        simp only [hd] at h
+        split at h
+        · cases h; exact ⟨fun _ _ => rfl, fun _ _ => rfl⟩
+        · cases h
+        · cases h; exact ⟨fun _ _ => rfl, fun _ _ => rfl⟩
+      | some ng =>
+        obtain ⟨n, g0⟩ := ng
+        simp only [hd, DocState.extract] at h
+        have hset : ∀ (l : List Comment) g, g ≠ g0 → (st.docs.setGroup g0 l).group g = st.docs.group g := by
+          intro l g hne
+          simp only [DocState.group, DocState.setGroup, List.getD_eq_getElem?_getD]
+          rw [List.getElem?_set_ne (Ne.symm hne)]
+        split at h
+        · cases h
+          refine ⟨fun g hg => hset _ g (hg n g0 rfl), fun _ _ => rfl⟩
+        · cases h
+        · cases h
+          constructor
+          · intro g hg
+            have hne := hg n g0 rfl
+            simp only [DocState.cleanUp]
+            split
+            · exact hset _ g hne
+            · exact hset _ g hne
+          · intro k hk
+            have hne := hk n g0 rfl
+            simp only [DocState.cleanUp]
+            split
+            · simp only [DocState.setGroup, List.getD_eq_getElem?_getD]
+              rw [List.getElem?_set_ne (Ne.symm hne)]
+            · rfl
+
+/-- `docOn` reads the doc pointers of the chain's nodes only -/
+theorem docOn_congr (s1 s2 : DocState) : ∀ (chain : List Nat),
+    (∀ enc ∈ chain, s1.docOf.getD (enc / 8) none = s2.docOf.getD (enc / 8) none) → s1.docOn chain = s2.docOn chain := by
+  intro chain
+  induction chain with
+  | nil => intro _; rfl
+  | cons enc rest ih =>
+    intro h
+    have h0 := h enc List.mem_cons_self
+    have hr := ih (fun e he => h e (List.mem_cons_of_mem _ he))
+    simp only [DocState.docOn, h0, hr]
+
+/-- two methods whose doc comments are different nodes and different comment groups -/
+def Apart (st : PState) (m1 m2 : MethodDecl) : Prop :=
+  ∀ n1 g1, st.docs.docOn m1.docChain = some (n1, g1) →
+    (∀ enc ∈ m2.docChain, enc / 8 ≠ n1) ∧ (∀ n2 g2, st.docs.docOn m2.docChain = some (n2, g2) → g2 ≠ g1)
+
+/-- **T9.5 (no leakage between methods).**  Whatever notations method `m1` carries — valid, invalid,
+failing — method `m2` parsed after it contributes exactly what it contributes when parsed in the
+state before `m1`: same options, same diagnostics, same success or failure. -/
+theorem method_isolated (m1 m2 : MethodDecl) (o1 o2 : Options) (st st1 : PState) (r1 : Option ParsedMethod)
+    (h1 : parseMethod env sc eng m1 o1 st = .ok (r1, st1)) (hap : Apart st m1 m2) :
+    delta st1 (parseMethod env sc eng m2 o2 st1) = delta st (parseMethod env sc eng m2 o2 st) := by
+  obtain ⟨hgroups, hdocOf⟩ := parseMethod_frame env sc eng m1 o1 st st1 r1 h1
+  have hdoc : st1.docs.docOn m2.docChain = st.docs.docOn m2.docChain := by
+    apply docOn_congr
+    intro enc henc
+    apply hdocOf
+    intro n g' hd
+    exact (hap n g' hd).1 enc henc
+  apply parseMethod_local env sc eng m2 o2 st1 st hdoc
+  intro n g hd
+  apply hgroups
+  intro n1 g1 hd1
+  rw [hdoc] at hd
+  exact (hap n1 g1 hd1).2 n g hd
+
+/-- the driver's check implies apartness -/
+theorem apart_of_check (st : PState) (m1 m2 : MethodDecl)
+    (h : apartCheck st.docs m1.docChain m2.docChain = true) : Apart st m1 m2 := by
+  intro n1 g1 hd
+  unfold apartCheck at h
+  simp only [hd, Bool.and_eq_true, List.all_eq_true, bne_iff_ne, ne_eq] at h
+  refine ⟨fun enc henc => h.1 enc henc, ?_⟩
+  intro n2 g2 hd2
+  have := h.2
+  simp only [hd2, bne_iff_ne, ne_eq] at this
+  exact this
+
+/-- non-vacuity: two methods with their own doc comments (nodes 0 and 1, groups 0 and 1) are apart -/
+example : Apart { docs := { groups := [[⟨"f.go:3:2", "// :typecast", 10⟩], [⟨"f.go:5:2", "// :getter", 40⟩]],
+                            docOf := [some 0, some 1] } }
+    { name := "A", pos := "f.go:4:2", params := [], results := [], docChain := [0 * 8 + 4] }
+    { name := "B", pos := "f.go:6:2", params := [], results := [], docChain := [1 * 8 + 4] } := by
+  intro n1 g1 h
+  simp [DocState.docOn] at h
+  obtain ⟨rfl, rfl⟩ := h
+  constructor
+  · intro enc henc
+    simp at henc
+    subst henc
+    decide
+  · intro n2 g2 h2
+    simp [DocState.docOn] at h2
+    obtain ⟨_, rfl⟩ := h2
+    decide
+
+end Convergen.Props.C09
